@@ -4,7 +4,7 @@ set -u
 patch=$1; id=$2; shift 2
 git -C /repo status --short | grep -q . && { echo "/repo not clean"; exit 3; }
 git -C /repo apply "$patch" || exit 3
-cd /verif && ./check "$id" "$@" 2>&1 | grep -v '^KNOWN' | tail -12
+cd /verif && VERIF_EVIDENCE_DIR=/verif/out/seed_evidence ./check "$id" "$@" 2>&1 | grep -v '^KNOWN' | tail -12
 rc=${PIPESTATUS[0]}
 git -C /repo checkout -- .
 git -C /repo status --short | grep -q . && echo "WARNING /repo not clean after undo"
